@@ -62,6 +62,13 @@ FORMS = {
     'module that imports a sibling': ("from olpkg.amb import y\nimport olpkg.amb.y as y2", ['y', 'y2']),
     'import in two steps same alias': ("import olpkg.a as z\nimport olpkg.sub.m as z", ['z']),
     'from import same name twice': ("from olpkg.a import val\nfrom olpkg.sub.m import val", ['val']),
+    'two from-imports same package new submodule': ("from olpkg.sub import m\nfrom olpkg.sub import n", ['m', 'n']),
+    'two from-imports same module attr then submodule': ("from olpkg import val\nfrom olpkg import a, p2 as q2", ['val', 'a', 'q2']),
+    'from-import in a branch not taken then again': ("if 0:\n    from olpkg.a import val\nfrom olpkg.a import other", ['other']),
+    'from-import in a branch taken then again': ("if 1:\n    from olpkg.sub import m\nelse:\n    from olpkg.sub import n\nfrom olpkg.sub import n as n2", ['m', 'n2']),
+    'two relative from-imports': ("from . import m\nfrom . import n\nfrom .. import a\nfrom .. import p2", ['m', 'n', 'a', 'p2']),
+    'from-import three times same module': ("from olpkg.a import val\nfrom olpkg.a import other\nfrom olpkg.a import val as v3", ['val', 'other', 'v3']),
+    'import and from-import interleaved': ("import olpkg.sub\nfrom olpkg.sub import m\nimport olpkg.sub.n as nn\nfrom olpkg.sub import n", ['olpkg', 'm', 'nn', 'n']),
     'stdlib dotted and alias': ("import os.path as op, os\nfrom os.path import join as j, sep\nimport xml.dom.minidom", ['op', 'os', 'j', 'sep', 'xml']),
     'stdlib mix': ("import os.path, olpkg.a as oa\nfrom os import path as osp, sep", ['os', 'oa', 'osp', 'sep']),
 }
